@@ -16,7 +16,7 @@
 (* [case, record index, reason] to `rej` (each reason once per case) and   *)
 (* checking goes on, so one rejection never hides the rest of the file.    *)
 (***************************************************************************)
-EXTENDS Ref, FDom, IOUtils
+EXTENDS Lib, FDom, IOUtils
 
 Obs == ndJsonDeserialize(IOEnv.OBS)
 
@@ -167,7 +167,12 @@ QueryEndReason(rec) ==
   ELSE IF rec.kind = "panic" THEN {"panic"}
   ELSE IF rec.kind = "budget" THEN {"budget_exhausted"}
   ELSE
-  IF Flag("noref") THEN {}
+  IF "lib" \in DOMAIN cur
+  THEN (* C24: ground instances of the answers against the sequence-level relation *)
+       LET impl == [i \in 1..Len(got) |-> ImplAnswer(got[i])]
+           qs == [i \in 1..Len(cur.qvars) |-> V(cur.qvars[i])]
+       IN LibReasons(cur.lib, cur.args, qs, impl, rec.kind = "exhausted", LibValsFor(cur.args))
+  ELSE IF Flag("noref") THEN {}
   ELSE
   LET spec == QueryAnswers(cur, Fuel)
       impl == [i \in 1..Len(got) |-> ImplAnswer(got[i])]
@@ -203,7 +208,15 @@ SolverEndReason(rec) ==
      same_bag   every case has the same answer multiset as the first one
      same_seq   every case has the same answer sequence as the first one
      union      the first case's answers are the multiset union of the others' *)
-ImplResults == IF cur.mode = "query" THEN [i \in 1..Len(got) |-> ImplAnswer(got[i])]
+RECURSIVE EncT(_)
+EncT(t) ==
+  CASE t[1] = "cmp"  -> ListOf(<< <<"sym", "s:" \o t[2]>> >> \o [i \in 1..Len(t[3]) |-> EncT(t[3][i])])
+    [] t[1] = "cons" -> TCons(EncT(t[2]), EncT(t[3]))
+    [] OTHER         -> t
+EncAnswer(a) == [q |-> [i \in 1..Len(a.q) |-> EncT(a.q[i])],
+                 cs |-> {<<"neq", [x \in DOMAIN c[2] |-> EncT(c[2][x])]>> : c \in a.cs}]
+ImplResults == IF cur.mode = "query"
+               THEN [i \in 1..Len(got) |-> IF Flag("enc") THEN EncAnswer(ImplAnswer(got[i])) ELSE ImplAnswer(got[i])]
                ELSE [i \in 1..Len(got) |-> StoreOfJson(got[i])]
 GroupOf(c) == IF "group" \in DOMAIN c THEN c.group ELSE "none"
 HistAfter(rec) ==
